@@ -218,7 +218,7 @@ def run_c14(ctx):
             else:
                 sig = dict(src="split", laws=",".join(laws), balanced=rec["in"].count("'") % 2 == 0)
                 desc = "ValidNamesSplit(%r) = %s violates %s" % ("".join(rec["in"]), ["".join(p) for p in rec["out"]], laws)
-                rep = dict(kind="split", input=rec["in"])
+                rep = dict(kind="split", input=rec["in"], text=rec.get("txt"))
             ck = json.dumps(sig, sort_keys=True)
             per_class[ck] = per_class.get(ck, 0) + 1
             if per_class[ck] <= 1:
@@ -260,17 +260,30 @@ C14_ASSUMPTIONS = [
     "splitter on strings with an unbalanced quote: only NoLoss is required (QuotedCommasKept / split-at-outer-commas are asserted for balanced strings only)",
     "NoLoss allows the loss of exactly one trailing comma (the property's own wording); the nil result for the empty string counts as no pieces",
     "a builder output that differs from the documented form but still round-trips is a DRIFT note, not a violation",
-    "CJK is represented by one character (U+4E2D); wire symbols Z/S/M stand for CJK characters, the generated alphabets never contain these letters",
+    "CJK is represented by one character per text, drawn from U+4E2D and five characters whose code point ends in the byte of a separator (U+5927, U+4E2C, U+4E3D, U+4E7C, U+4E5C); wire symbols Z/S/M stand for CJK characters, the generated alphabets never contain these letters",
     "rule lists of 2 and 3 rules are drawn from the pools Pool2 / Pool3 of spec/RuleText.tla (not from the full single-rule window)",
     "escaped quotes inside re patterns followed by a comma (D19) are not generated (owned by the formats family)",
 ]
+
+
+_Z = ["中", "大", "丬", "丽", "乼", "乜"]
+
+
+def _wire_text(syms):
+    """harness/cmd/vh/ruletext.go ruletextText: the CJK character standing for Z is chosen by an FNV-1a hash of the text"""
+    h = 2166136261
+    for s in syms:
+        for b in s.encode("utf-8"):
+            h = ((h ^ b) * 16777619) & 0xFFFFFFFF
+    z = _Z[h % len(_Z)]
+    return "".join(z if s == "Z" else {"S": "说", "M": "明"}.get(s, s) for s in syms)
 
 
 def _replay_c14(ctx, vh):
     r = json.load(open(ctx.replay))["replay"]
     out = ctx.path("rp")
     if r["kind"] == "split":
-        text = "".join({"Z": "中", "S": "说", "M": "明"}.get(s, s) for s in r["input"])
+        text = r.get("text") or "".join(_wire_text([s]) for s in r["input"])
         ctx.run_vh(vh, ["ruletext-split"], stdin_data=json.dumps(dict(shards=1, out=out, inputs=[text])))
         kind = "split" if all(s in "a,'=|~" for s in r["input"]) else "splitr"
     else:
@@ -401,6 +414,9 @@ def _check_case(ctx, case, exp_clauses, exp_extract, out, meta):
     want_x = SEP.join(texts)
     if len(texts) != len(exp_extract):
         raise MachineryError("Extract length differs from labelled clauses in case %s" % case["id"])
+    if out.get("xchanged"):
+        bad.append((dict(base, part="extract", what="changed-after-return"),
+                    "the string GetOnlyExplainErr(%r) returned changed after later calls: it read %r, now reads %r" % (out["err"][:300], out["extract"][:200], out["xchanged"][:200])))
     if out["xpanic"]:
         bad.append((dict(base, part="extract", what="panic"), "GetOnlyExplainErr(%r) panicked: %s" % (out["err"], out["xpanic"])))
     elif out["extract"] != want_x:
